@@ -394,8 +394,12 @@ func (a *TCPAllocation) Addr() net.Addr {
 // HandleConnectionAttempt is called by the TURN client
 // when it receives a ConnectionAttempt indication.
 func (a *TCPAllocation) HandleConnectionAttempt(from *net.TCPAddr, cid proto.ConnectionID) {
-	a.connAttemptCh <- &connectionAttempt{
+	select {
+	case a.connAttemptCh <- &connectionAttempt{
 		from: from,
 		cid:  cid,
+	}:
+	default:
+		a.log.Warnf("Connection attempt queue full, dropping attempt from %s", from)
 	}
 }
